@@ -477,6 +477,11 @@ class Asm:
         res = []
         for o in ops:
             k = o[0]
+            if k in ("reg", "ind", "inc", "incd", "dec", "decd", "idx", "idxd") and isinstance(o[1], (tuple, list)):
+                n = self.ev_int(node, o[1])          # '%expr': a computed register number
+                if not 0 <= n <= 7:
+                    raise AsmError("value-out-of-bounds")
+                o = (k, n) + tuple(o[2:])
             if k in ("idx", "idxd"):
                 res.append((k, o[1], self.ev_int(node, o[2])))
             elif k in ("imm", "abs", "num", "tgt"):
